@@ -535,6 +535,7 @@ class Unit:
         with open(cfile, "w") as fh:
             fh.write(text)
         # must-fire rules
+        fallback_unwind = None
         if not is_lemma:
             f = tr.funcs[target]
             for r, cnt in spec.must_fire.items():
@@ -544,10 +545,12 @@ class Unit:
                 if lid > f.loops:
                     raise ExtractionBreak("function %s: loop contract for loop %d but only %d loops" % (target, lid, f.loops))
             if f.loops and not spec.loops and not spec.extra.get("unwind"):
-                raise ExtractionBreak("function %s has %d loop(s) but no loop contract" % (target, f.loops))
+                # a loop the contracts do not know (the code changed): bounded attempt instead of giving up on the whole property --
+                # failures on paths inside the bound are real; if the loop exceeds the bound the unwinding assertion makes the result inconclusive
+                fallback_unwind = 6
         has_loops = ((not is_lemma) and (bool(spec.loops) or bool(spec.extra.get("apply_loops")))) or has_inlined_loops
         return dict(unit=self.name, target=key, fname=target, cfile=cfile, harness=hname, enforce=None if is_lemma else target,
-                    replaced=replaced, loops=has_loops, loops_optional=((not is_lemma) and spec.extra.get("apply_loops") == "auto" and not spec.loops and not has_inlined_loops), unwind=(None if is_lemma else spec.extra.get("unwind")), linemap=linemap, inputs=inputs, spec=spec, is_lemma=is_lemma,
+                    replaced=replaced, loops=has_loops, loops_optional=((not is_lemma) and spec.extra.get("apply_loops") == "auto" and not spec.loops and not has_inlined_loops), unwind=(None if is_lemma else (spec.extra.get("unwind") or fallback_unwind)), linemap=linemap, inputs=inputs, spec=spec, is_lemma=is_lemma,
                     hstart=hstart, functions=order, text=text, rec=(not is_lemma and spec.rec))
 
     def lemma_harness(self, lem):
